@@ -4,4 +4,5 @@ import "verifharness/internal/wire"
 
 func init() {
 	replayers["wire"] = wire.Replay
+	replayers["wireconc"] = wire.ReplayConcurrent
 }
